@@ -35,6 +35,7 @@ def run(ctx):
     b_retrieval_reentry(ctx, flows)
     b_event_budget(ctx)
     c_tracing_unwrap(ctx)
+    d_refusal_skips_output(ctx)
 
 
 def a_tables(ctx, flows):
@@ -462,6 +463,40 @@ def b_event_budget(ctx):
                   "the event limit of a turn grows with the number of configured rails" if ok else
                   "the event limit of a turn is the constant %s while every configured rail costs ~11 events of its own: rails=['input','output'] with 4+4 rails raises 'Too many events.' although every rail allows the text"
                   % (src(rhs) if rhs is not None else "?"), line=i.lineno)
+
+
+GEN1 = "nemoguardrails/actions/llm/generation.py"
+
+
+def d_refusal_skips_output(ctx):
+    """`stop` is logged on exactly the rail that blocked: a rail blocks by uttering a PREDEFINED message (`bot refuse to respond`), which generate_bot_message looks up.
+    If that message is sent through the output rails again, they run nested inside the blocking rail's bracket and overwrite the log cursor (the blocking rail ends
+    without `stop`, extra rails are listed).  So the branch that found a predefined message sets the one-shot skip flag on EVERY path, whatever the message contains."""
+    t = ctx.tree.ast(GEN1)
+    fn = None
+    for f in ast.walk(t):
+        if isinstance(f, (ast.FunctionDef, ast.AsyncFunctionDef)) and f.name == "generate_bot_message":
+            fn = f
+    if fn is None:
+        raise AnalysisError("generate_bot_message not found", anchor=GEN1 + "::generate_bot_message")
+    cfg = CFG(fn)
+    writes = [n for n in cfg.nodes if n.kind == "stmt" and isinstance(n.ast, ast.Assign) and isinstance(n.ast.targets[0], ast.Subscript)
+              and isinstance(n.ast.targets[0].slice, ast.Constant) and n.ast.targets[0].slice.value == "skip_output_rails"
+              and isinstance(n.ast.value, ast.Constant) and n.ast.value.value is True]
+    # the branch: the `if` whose test looks the intent up in the predefined bot messages
+    branches = [n for n in cfg.nodes if n.kind == "test" and n.ast is not None and isinstance(n.stmt, ast.If) and "bot_messages" in src(n.ast)
+                and isinstance(n.ast, (ast.Compare, ast.BoolOp)) and any(isinstance(c_, ast.Compare) and isinstance(c_.ops[0], ast.In) for c_ in ast.walk(n.ast))]
+    ctx.floor("C16.d.refusal-skips-output", GEN1, "lookup of a predefined bot message in generate_bot_message", len(branches), 1)
+    for b in branches[:1]:
+        starts = [m for m, lab in b.succ if lab is True]
+        # every path from the found-branch to the point where the branches of the function join again (= any node outside the `if` body) passes a write
+        body_nodes = {cfg.node_of(x) for st in b.stmt.body for x in ast.walk(st) if cfg.node_of(x) is not None}
+        exits = {m for n_ in body_nodes if n_ is not None for m, _ in n_.succ if m not in body_nodes}
+        ok = bool(writes) and bool(starts) and all(cfg.must_pass(s0, e, writes, include_a=True) for s0 in starts for e in exits)
+        ctx.check("C16.d.refusal-skips-output", GEN1, "LLMGenerationActions.generate_bot_message", "predefined message sets the skip flag on every path", ok,
+                  "every path through the predefined-message branch sets skip_output_rails" if ok else
+                  "a path through the predefined-message branch leaves skip_output_rails unset (e.g. when the message interpolates a context variable): the refusal of a blocking rail "
+                  "is sent through the output rails inside that rail's bracket - no rail in the log has `stop`, extra rails are listed", line=b.line)
 
 
 def c_tracing_unwrap(ctx):
